@@ -633,6 +633,54 @@ fn ws_one(ctx: &mut Ctx, lo: u32, hi: u32) -> String {
     s
 }
 
+/// pairs of texts that share a long head and then differ in a line TERMINATOR (CR / CRLF / LF / none), the shape on
+/// which a tokenizer that looks at both texts at once (or works in blocks) cuts one side differently
+fn terminator_change_pairs(heads: &[usize]) -> Vec<(Vec<u8>, Vec<u8>)> {
+    let terms = ["\n", "\r\n", "\r", ""];
+    let mut v = vec![];
+    for &h in heads {
+        let head: String = (0..h).map(|i| format!("line {}\n", i)).collect();
+        for (a, t1) in terms.iter().enumerate() {
+            for (b, t2) in terms.iter().enumerate() {
+                if a == b {
+                    continue;
+                }
+                for rest in ["", "y\n", "\n"] {
+                    let old = format!("{}x{}{}", head, t1, rest);
+                    let new = format!("{}x{}{}", head, t2, rest);
+                    v.push((old.into_bytes(), new.into_bytes()));
+                }
+            }
+        }
+    }
+    v
+}
+
+/// C06 through the text-diff entry points: the token slices a `TextDiff` holds are the tokenizer's output for each text alone
+fn textdiff_tokens_case(ctx: &mut Ctx, old: &[u8], new: &[u8]) {
+    fn one<T: DiffableStr + ?Sized>(ctx: &mut Ctx, mode: Mode, old: &T, new: &T) {
+        for kind in Kind::DIFF {
+            let c = TextCfg { kind, alg: Algorithm::Myers, nlt: None, dl: None };
+            let req = text_request(&c, mode, old.as_bytes(), new.as_bytes());
+            let r = catch_unwind(AssertUnwindSafe(|| {
+                let diff = build_diff(&c, DlHow::Deadline, None, old, new);
+                tokenize(kind, old).iter().map(|t| t.as_bytes()).eq(diff.old_slices().iter().map(|t| t.as_bytes()))
+                    && tokenize(kind, new).iter().map(|t| t.as_bytes()).eq(diff.new_slices().iter().map(|t| t.as_bytes()))
+            }));
+            ctx.count("tok.textdiff_token_cases");
+            match r {
+                Err(_) => ctx.violation("C06", &req, "building the text diff panicked".to_string()),
+                Ok(false) => ctx.violation("C06", &req, "the tokens a TextDiff holds differ from what the tokenizer returns for that text alone".to_string()),
+                Ok(true) => {}
+            }
+        }
+    }
+    one::<[u8]>(ctx, Mode::Bytes, old, new);
+    if is_utf8(old) && is_utf8(new) {
+        one::<str>(ctx, Mode::Str, as_str(old), as_str(new));
+    }
+}
+
 pub fn suite_tok(ctx: &mut Ctx) {
     let (l, nrand, max_lines) = match ctx.tier {
         Tier::Quick => (3, 1500, 8),
@@ -656,6 +704,36 @@ pub fn suite_tok(ctx: &mut Ctx) {
         ctx.count("tok.inputs.bytes");
         tok_input(ctx, &b);
     });
+    // token LENGTH sweep: a line body / word / whitespace run of every length 0..=300 (every residue of any block size a
+    // scanner may work in) and around 1024 and 4096, in front of each terminator resp. separator
+    let mut lens: Vec<usize> = (0..=300).collect();
+    lens.extend_from_slice(&[511, 512, 513, 1023, 1024, 1025, 4095, 4096, 4097]);
+    for (li, &len) in lens.iter().enumerate() {
+        if !ctx.take() {
+            continue;
+        }
+        let body = |c: char, n: usize| -> String { std::iter::repeat(c).take(n).collect() };
+        for (ti, term) in ["\n", "\r\n", "\r", "\r\r\n", ""].iter().enumerate() {
+            // lines: body, terminator, a second short line; the multi-byte variant shifts every byte offset by one
+            let pre = if (li + ti) % 3 == 0 { "é" } else { "" };
+            let t = format!("{}{}{}y{}", pre, body('x', len), term, if ti % 2 == 0 { "\n" } else { "" });
+            ctx.count("tok.inputs.length_sweep");
+            tok_input(ctx, t.as_bytes());
+        }
+        for sep in [" ", "\t ", "\u{a0}", "\x0b"] {
+            let t = format!("{}{}{}{}b", body('w', len), sep, body(' ', len % 7), body('v', len / 2));
+            ctx.count("tok.inputs.length_sweep");
+            tok_input(ctx, t.as_bytes());
+        }
+    }
+    // the tokenizers as the text-diff entry points use them
+    for (o, n) in terminator_change_pairs(if ctx.tier == Tier::Quick { &[0, 3, 700, 5000] } else { &[0, 1, 3, 120, 700, 5000, 20000] }) {
+        if !ctx.take() {
+            continue;
+        }
+        textdiff_tokens_case(ctx, &o, &n);
+        textdiff_tokens_case(ctx, &n, &o);
+    }
     // random longer texts
     for i in 0..nrand {
         if !ctx.take() {
@@ -769,6 +847,9 @@ struct TextEval {
     /// `capture_diff_slices_deadline` on the diff's own token slices under the same clock
     direct: Vec<DiffOp>,
     direct_probes: u64,
+    /// `old_slices()` / `new_slices()` are what the tokenizer returns for each text ON ITS OWN (a text diff is the diff of
+    /// its tokens: the tokens of one side must not depend on the other side)
+    toks_independent: bool,
     /// only when `ops` do not carry exact positions: the ops of the SAME text diff (same entry point, tokenizer, algorithm
     /// and clock) built with the swap repair switched on -- the attribution of C11's known finding
     ops_repaired: Option<Vec<DiffOp>>,
@@ -782,6 +863,8 @@ fn text_eval<T: DiffableStr + ?Sized>(c: &TextCfg, how: DlHow, old: &T, new: &T)
         let per: Vec<Chg> = diff.ops().iter().flat_map(|op| diff.iter_changes(op)).map(conv_change).collect();
         let ot: Vec<Vec<u8>> = diff.old_slices().iter().map(|t| t.as_bytes().to_vec()).collect();
         let nt: Vec<Vec<u8>> = diff.new_slices().iter().map(|t| t.as_bytes().to_vec()).collect();
+        let indep = tokenize(c.kind, old).iter().map(|t| t.as_bytes()).eq(ot.iter().map(|t| &t[..]))
+            && tokenize(c.kind, new).iter().map(|t| t.as_bytes()).eq(nt.iter().map(|t| &t[..]));
         let driven = if all.len() <= 120 {
             let want: Vec<String> = all.iter().map(|c| format!("{:?}", c)).collect();
             super::misc::drive_check(|| diff.iter_all_changes(), |c| format!("{:?}", conv_change(c)), &want)
@@ -790,12 +873,12 @@ fn text_eval<T: DiffableStr + ?Sized>(c: &TextCfg, how: DlHow, old: &T, new: &T)
         };
         (all, per, ot, nt, diff.ops().to_vec(), diff.newline_terminated(), diff.algorithm(), diff.ratio().to_bits(),
          (0..=3).all(|n| diff.grouped_ops(n) == similar::group_diff_ops(diff.ops().to_vec(), n)),
-         driven)
+         driven, indep)
     }))
     .ok()?;
     let (direct, _, _, direct_probes) =
         obs::with_world(c.dl, false, |inst| similar::capture_diff_slices_deadline(c.alg, diff.old_slices(), diff.new_slices(), inst));
-    let (all_changes, op_changes, old_toks, new_toks, ops, nlt, alg, ratio_bits, grouped_consistent, all_driven) = rest;
+    let (all_changes, op_changes, old_toks, new_toks, ops, nlt, alg, ratio_bits, grouped_consistent, all_driven, toks_independent) = rest;
     let r = (0, old_toks.len(), 0, new_toks.len());
     let ops_repaired = if oracle::carried_exact(r, &ops_calls(&ops)).is_err() {
         let (d2, _, _, _) = obs::with_world(c.dl, true, |inst| build_diff(c, how, inst, old, new).ops().to_vec());
@@ -803,7 +886,7 @@ fn text_eval<T: DiffableStr + ?Sized>(c: &TextCfg, how: DlHow, old: &T, new: &T)
     } else {
         None
     };
-    Some(TextEval { ops, nlt, alg, ratio_bits, grouped_consistent, all_driven, probes, old_toks, new_toks, all_changes, op_changes, direct: direct?, direct_probes, ops_repaired })
+    Some(TextEval { ops, nlt, alg, ratio_bits, grouped_consistent, all_driven, probes, old_toks, new_toks, all_changes, op_changes, direct: direct?, direct_probes, ops_repaired, toks_independent })
 }
 
 fn text_eval_mode(c: &TextCfg, how: DlHow, mode: Mode, old: &[u8], new: &[u8]) -> Option<TextEval> {
@@ -962,6 +1045,13 @@ fn check_text(ctx: &mut Ctx, req: &str, c: &TextCfg, old: &[u8], new: &[u8], ev:
     }
     if !ev.grouped_consistent {
         ctx.violation("C12", req, "TextDiff::grouped_ops(n) differs from group_diff_ops(ops, n)".to_string());
+    }
+    // C14 / C06: the token slices of the diff are the tokenizer's output for each text on its own
+    if !ev.toks_independent {
+        let msg = "the token slices of the text diff differ from what the tokenizer returns for that text alone".to_string();
+        ctx.violation("C14", req, msg.clone());
+        ctx.violation("C06", req, msg.clone());
+        ctx.violation("C04", req, msg);
     }
     // C14
     if ev.alg != c.alg {
@@ -1326,6 +1416,15 @@ pub fn suite_text(ctx: &mut Ctx) {
         let c = TextCfg { kind: Kind::DIFF[(i % 5) as usize], alg: ALGS[((i / 5) % 3) as usize], nlt: NLTS[((i / 15) % 3) as usize], dl: None };
         ctx.count("text.random_pairs");
         text_pair(ctx, &c, &old, &new, i);
+    }
+    // a terminator change (CR / CRLF / LF / none) right behind a shared head, on both sides of the 100-token switch
+    for (j, (o, n)) in terminator_change_pairs(&[0, 2, 99, 130]).into_iter().enumerate() {
+        if !ctx.take() {
+            continue;
+        }
+        let c = TextCfg { kind: [Kind::Lines, Kind::Words, Kind::Chars][j % 3], alg: ALGS[(j / 3) % 3], nlt: None, dl: None };
+        ctx.count("text.terminator_change_cases");
+        text_pair(ctx, &c, &o, &n, j as u64);
     }
     // a shared head of more than 100 tokens followed by short tails that repeat tokens of the head: what is unique
     // in a tail alone is not unique in the whole text (C14: the text diff is the diff of ALL the tokens)
